@@ -25,6 +25,7 @@ import (
 	"time"
 
 	"github.com/elliotchance/gedcom/v39"
+	"github.com/elliotchance/gedcom/v39/html/core"
 	"github.com/elliotchance/gedcom/v39/q"
 )
 
@@ -349,6 +350,7 @@ type c15Obs struct {
 	JSON  string // canonical JSON of the value ("" unless mode j)
 	Type  string // Go type of the value
 	Err   string
+	FmtCheck string // "" = every formatter wrote the whole result and reported writer errors; else what was wrong
 	Reuse string // modes "r" / "f": "same", or how the reused engine / formatter differed from a fresh one
 	Ast   string // mode "d" only: the syntax tree dump (parsed in the child: a parser that hangs must not hang the harness)
 }
@@ -633,8 +635,131 @@ func c15evalOne(query string, texts []string, mode string) (o c15Obs) {
 		if mode == "j" {
 			o.JSON = c15jsonOf(res)
 		}
+		o.FmtCheck = c15fmtCompleteness(res)
 	}
 	return
+}
+
+type c15formatterKind struct {
+	name string
+	mk   func(w io.Writer) q.Formatter
+}
+
+var c15formatterKinds = []c15formatterKind{
+	{"json", func(w io.Writer) q.Formatter { return &q.JSONFormatter{Writer: w} }},
+	{"pretty-json", func(w io.Writer) q.Formatter { return &q.PrettyJSONFormatter{Writer: w} }},
+	{"csv", func(w io.Writer) q.Formatter { return &q.CSVFormatter{Writer: w} }},
+	{"gedcom", func(w io.Writer) q.Formatter { return &q.GEDCOMFormatter{Writer: w} }},
+	{"html", func(w io.Writer) q.Formatter { return &q.HTMLFormatter{Writer: w} }},
+}
+
+// c15failWriter accepts failAt-1 calls of Write and refuses every later one.
+type c15failWriter struct {
+	failAt, calls int
+	failed        bool
+}
+
+func (w *c15failWriter) Write(p []byte) (int, error) {
+	w.calls++
+	if w.calls >= w.failAt {
+		w.failed = true
+		return 0, fmt.Errorf("writer refuses write number %d", w.calls)
+	}
+	return len(p), nil
+}
+
+func c15fmtBytes(k c15formatterKind, res interface{}) (cls string, out []byte) {
+	var buf bytes.Buffer
+	cls = c15fmtClass(k.mk(&buf), res)
+	return cls, buf.Bytes()
+}
+
+// c15fmtCompleteness: "writes it" means the whole result, and a result that could not be written is
+// an error.  Without a model of the formats: a list of n elements must decode to n JSON values,
+// give n CSV rows below the header, and its GEDCOM / HTML output must be the outputs of its
+// elements one after the other; a writer that refuses its k-th Write must make Write return an error.
+func c15fmtCompleteness(res interface{}) (problem string) {
+	defer func() {
+		if r := recover(); r != nil {
+			problem = fmt.Sprintf("completeness check panicked: %v", r)
+		}
+	}()
+	v := reflect.ValueOf(res)
+	isList := res != nil && v.Kind() == reflect.Slice && !v.IsNil()
+	n := 0
+	if isList {
+		n = v.Len()
+	}
+	_, isComponent := res.(core.Component)
+	for _, k := range c15formatterKinds {
+		cls, out := c15fmtBytes(k, res)
+		if cls == "written" && isList && n <= 300 {
+			switch k.name {
+			case "json", "pretty-json":
+				var dec interface{}
+				if err := json.Unmarshal(out, &dec); err != nil {
+					return k.name + ": the output is not JSON"
+				}
+				if l, ok := dec.([]interface{}); !ok || len(l) != n {
+					return fmt.Sprintf("%s: a list of %d elements was written as %d JSON values", k.name, n, len(l))
+				}
+			case "csv":
+				// the header and the first row, then for every further element the row it adds to them
+				pair := func(i int) ([]byte, bool) {
+					sl := reflect.MakeSlice(v.Type(), 0, 2)
+					sl = reflect.Append(sl, v.Index(0))
+					if i > 0 {
+						sl = reflect.Append(sl, v.Index(i))
+					}
+					c, o := c15fmtBytes(k, sl.Interface())
+					return o, c == "written"
+				}
+				if n >= 1 {
+					head, ok := pair(0)
+					want := append([]byte{}, head...)
+					for i := 1; i < n && ok; i++ {
+						var o []byte
+						if o, ok = pair(i); ok {
+							if ok = bytes.HasPrefix(o, head); ok {
+								want = append(want, o[len(head):]...)
+							}
+						}
+					}
+					if ok && !bytes.Equal(want, out) {
+						return fmt.Sprintf("csv: the output of a list of %d elements (%d bytes) is not the header and one row per element (%d bytes)", n, len(out), len(want))
+					}
+				}
+			case "gedcom", "html":
+				if k.name == "html" && isComponent {
+					break
+				}
+				var parts []byte
+				ok := true
+				for i := 0; i < n && ok; i++ {
+					c, o := c15fmtBytes(k, v.Index(i).Interface())
+					ok = c == "written"
+					parts = append(parts, o...)
+				}
+				if ok && !bytes.Equal(parts, out) {
+					return fmt.Sprintf("%s: the output of a list of %d elements (%d bytes) is not the outputs of its elements one after the other (%d bytes)", k.name, n, len(out), len(parts))
+				}
+			}
+		}
+	}
+	// second pass (so that a known writer-error finding of one formatter cannot hide an incomplete
+	// output of another): a refused write must be reported
+	for _, k := range c15formatterKinds {
+		if cls, _ := c15fmtBytes(k, res); cls == "panic" {
+			continue // reported by the class oracle
+		}
+		for failAt := 1; failAt <= 3; failAt++ {
+			w := &c15failWriter{failAt: failAt}
+			if c := c15fmtClass(k.mk(w), res); w.failed && c == "written" {
+				return fmt.Sprintf("%s: Write returns nil although the writer failed on its write number %d", k.name, failAt)
+			}
+		}
+	}
+	return ""
 }
 
 // worker protocol (stdin): "doc <hex gedcom>" defines the next document id (0,1,…);
@@ -1602,6 +1727,14 @@ func init() {
 				c.Oracle(key, what, in, o.Top, "value | error")
 			default:
 				c.Oracle("", "evaluation panics", in, o.Top+": "+o.Err, "value | error")
+			}
+			if o.Top == "value" && o.FmtCheck != "" {
+				key := ""
+				if strings.Contains(o.FmtCheck, "although the writer failed") && (strings.HasPrefix(o.FmtCheck, "csv:") || strings.HasPrefix(o.FmtCheck, "gedcom:") || strings.HasPrefix(o.FmtCheck, "html:")) {
+					key = "formatter-ignores-writer-error" // narrow: csv / gedcom / html return nil from a refused write
+				}
+				c.Oracle(key, "a formatter does not write the whole result, or hides that it could not be written",
+					map[string]interface{}{"query": j.Query, "documents": in["documents"], "result_type": o.Type}, o.FmtCheck, "the whole result written, or an error")
 			}
 			if o.Top == "value" {
 				for k, f := range strings.Split(o.Fmt, ",") {
